@@ -295,12 +295,13 @@ func compareSegments(a, b segment) int {
 		return compareInt(a.numValue, b.numValue)
 	}
 
-	// One numeric, one string - in prerelease context, strings have precedence
+	// One numeric, one string - a string segment sorts before a number (and before a missing
+	// segment, which counts as 0), as in Gem::Version
 	if a.isNumeric && !b.isNumeric {
-		return -1
+		return 1
 	}
 	if !a.isNumeric && b.isNumeric {
-		return 1
+		return -1
 	}
 
 	// Both strings - lexical comparison
